@@ -43,6 +43,7 @@ TSilent ==
      \/ Free("w") /\ W2Done /\ Put("w", "router.close.running_wait_done")
      \/ \E c \in Closers : Free("closer") /\ Free("w") /\ (ClReturn(c) \/ ClReturnAgain(c)) /\ UNCHANGED site
      \/ UserSkip /\ UNCHANGED site
+     \/ SrcCloses /\ UNCHANGED site
   /\ Keep /\ UNCHANGED l
 
 THook == /\ Is("hook") /\ site[Ev.g] = Ev.point /\ Put(Ev.g, "") /\ UNCHANGED vars /\ Keep /\ Adv
